@@ -86,6 +86,10 @@ type c05Cfg struct {
 	MaxElapsed time.Duration `json:"max_elapsed"`
 	RF         float64       `json:"randomization"`
 	Deadline   time.Duration `json:"deadline"` // 0 = none
+	// AttemptTimeout: the exporter helper's per-attempt timeout (timeout sender; its context deadline lives on the virtual
+	// clock). With it the backend has one more answer, "slow-ok": the call succeeds, but only after the attempt's deadline
+	// has passed (a push function that does not watch its context) - a success is a success, nothing is sent again
+	AttemptTimeout time.Duration `json:"attempt_timeout,omitempty"`
 }
 
 func (c c05Cfg) backoff() configretry.BackOffConfig {
@@ -160,12 +164,23 @@ func c05Body(cfg c05Cfg, maxAttempts int, res *c05Res) func() {
 			res.attempts = append(res.attempts, c05Attempt{vs.Now().Sub(t0), fmt.Sprint(req.items)})
 			o := "ok"
 			if len(res.attempts) < maxAttempts {
-				o = c05Outcomes[vs.ChooseFree(len(c05Outcomes))]
+				outs := c05Outcomes
+				if cfg.AttemptTimeout > 0 {
+					outs = append(append([]string(nil), c05Outcomes...), "slow-ok")
+				}
+				o = outs[vs.ChooseFree(len(outs))]
 			}
 			res.outs = append(res.outs, o)
 			switch o {
 			case "transient":
 				return errors.New("transient")
+			case "slow-ok":
+				// the only timer armed during an attempt is the attempt's own deadline: it passes while the call is under way
+				vs.Advance(cfg.AttemptTimeout + time.Second)
+				if dl, ok := vs.NextDeadline(); ok && !dl.After(vs.Now()) {
+					vs.FireNext()
+				}
+				return nil
 			case "slow-transient":
 				vs.Advance(c05Slow) // no timer is armed while an attempt is in progress
 				return errors.New("transient after a long call")
@@ -202,7 +217,7 @@ func c05Body(cfg c05Cfg, maxAttempts int, res *c05Res) func() {
 			return nil
 		}
 		be, err := NewBaseExporter(exportertest.NewNopSettings(component.MustNewType("x")), pipeline.SignalTraces, pusher,
-			WithRetry(cfg.backoff()), WithTimeout(TimeoutConfig{Timeout: 0}))
+			WithRetry(cfg.backoff()), WithTimeout(TimeoutConfig{Timeout: cfg.AttemptTimeout}))
 		if err != nil {
 			panic(err)
 		}
@@ -297,7 +312,7 @@ func c05Ref(cfg c05Cfg, res *c05Res) string {
 			t += c05Slow // the failure is known this much later; the next attempt's fit is judged from then
 		}
 		switch o {
-		case "ok":
+		case "ok", "slow-ok":
 			return finish("nil")
 		case "permanent", "wrapped-permanent", "joined-permanent":
 			return finish("permanent") // never retried
@@ -439,7 +454,12 @@ func TestVerif(t *testing.T) {
 								if !en && (ini == 0 || mult == 1 || maxIv == time.Second || me != 0 || rf != 0) {
 									continue // disabled: the other settings are irrelevant, keep one representative (+deadline)
 								}
-								cfgs = append(cfgs, c05Cfg{en, ini, mult, maxIv, me, rf, dl})
+								cfgs = append(cfgs, c05Cfg{en, ini, mult, maxIv, me, rf, dl, 0})
+								if rf == 0 && dl == 0 && mult == 2 && maxIv == 4*time.Second {
+									// with the per-attempt timeout (a subset of the grid: the timeout does not interact with the
+									// randomisation, the request deadline or the interval growth)
+									cfgs = append(cfgs, c05Cfg{en, ini, mult, maxIv, me, rf, dl, 2 * time.Second})
+								}
 							}
 						}
 					}
